@@ -168,13 +168,17 @@ theorem first_sat_is_std_find_if (p : Int → Bool) (d : Nat) :
 
 /-! ## non-vacuity -/
 
-/-- the stop path really cuts: n = 40, stop seen after 17 calls ⇒ indices 0…31 then set_done -/
-example : run false true (some 17) 40 = (List.range 32).map Ev.next ++ [Ev.done] := by decide
+/-- the stop path really cuts: two full chunks and a bit, stop seen right after the first chunk ⇒ exactly
+    two chunks are visited, then set_done (stated relative to the generated constant) -/
+example : run false true (some (bulk_cancellation_chunk_size + 1)) (2 * bulk_cancellation_chunk_size + 8)
+    = (List.range (2 * bulk_cancellation_chunk_size)).map Ev.next ++ [Ev.done] := by decide
 
-/-- a find with several matches and cancellation: d = 126, matches at 70 and 5 ⇒ 5, and the chunks
-    of the first cancellation group (16 chunks of 4 = offsets 0…63) are all scanned -/
+/-- a find with several matches and cancellation: d = 126, matches at 70 and 5 ⇒ 5; the chunks after the
+    match that belong to the same cancellation group are still scanned (more than 6 evaluations), the
+    later groups are not (with the current constants: 62 evaluations, offsets 0…5 and 8…63) -/
 example : (findIfPar (fun j => j == 70 || j == 5) 126 127).res = 5 ∧
-    (findIfPar (fun j => j == 70 || j == 5) 126 127).evals.length = 62 := by decide +kernel
+    6 < (findIfPar (fun j => j == 70 || j == 5) 126 127).evals.length ∧
+    (findIfPar (fun j => j == 70 || j == 5) 126 127).evals.length < 126 := by decide +kernel
 
 /-- the side condition is satisfiable on both sides of 160 and fails somewhere -/
 example : tilesB 159 = true ∧ tilesB 186 = true ∧ tilesB 185 = false ∧ tilesB 992 = true := by decide +kernel
